@@ -150,3 +150,15 @@ theorem source_send_token (token : Int32) (offset n : Int) (file : Bytes) (out :
       .ok (out ++ PureTie.emitChunks (cutChunks chunkSize ((file.drop offset.toNat).take n.toNat)) ++
             (if token = -2 then [] else [Go.Out.i32 (-(token + 1))])) :=
   PureTie.sendToken_tied token offset n file out h0 hn hin
+
+/-- **the early flush never re-sends data**: the condition `hashSearch` tests before flushing a long
+unmatched run (translated from /repo on every run) implies that the flush point `offset − blockLength`
+lies at least `chunkSize` ahead of `lastMatch`, for every block length a header may carry — so
+`matched` is called with a positive run length and never reaches back over bytes a block reference
+already covered (with a threshold that ignores the block length it would, for blocks beyond 256 KiB). -/
+theorem source_flush_is_forward (offset lastMatch end_ : Int) (bl : Int32)
+    (h : Gen.Pure.flushCond (offset - lastMatch) bl end_ offset false = true) :
+    lastMatch + (chunkSize : Int) ≤ offset - bl.toInt :=
+  PureTie.flush_target_after_last_match offset lastMatch end_ bl h
+
+end C02
